@@ -87,7 +87,9 @@ def run(ctx):
         "go-nsq (Message.Finish calls the delegate once; max_attempts handling is outside the router)",
         "Go runtime fake clock (-tags faketime, the playground clock): only the clock source differs, the router "
         "code is compiled unchanged; time advances only when every goroutine is blocked",
-        "correspondence harness harness/e8/tofile_test.go; strace(1) output order (syscall leg)",
+        "correspondence harness harness/e8/tofile_test.go (fault seams: dup3 onto the descriptor of f.out, SIGKILL from the "
+        "FIN delegate / log callback; starvation seam: a never-dialled nsq.Conn registered in the real Consumer); "
+        "strace(1) output order (syscall leg)",
         "go2lean kind `skeleton` (statement skeletons of router/Close/Sync/Write/needsRotation/updateFile/exclusiveRename)",
     ]
     ctx.assumptions += [
@@ -99,8 +101,10 @@ def run(ctx):
     ctx.rule = ("one case = one generated script (configuration: gzip, rotate-size, rotate-interval, work-dir, "
                 "skip-empty-files, max-in-flight, sync-interval, datetime format, filename format with/without <REV>; "
                 "pre-existing colliding files in both dirs; events msg / clock advance / ticker tick / SIGHUP / "
-                "SIGTERM+stop / stop without shutdown) run through the real FileLogger.router() in a child process "
-                "on the fake clock; every event's FIN batch + directory listing and the final decoded tree are "
+                "SIGTERM+stop / stop without shutdown; consumer starvation both ways on msg events; in one script of "
+                "three one injected fault: SIGKILL before the n-th Finish / between the writes and Sync / before the "
+                "move's link, or a failing write / fsync on f.out before or after the FIN batch; max-in-flight 0) "
+                "run through the real FileLogger.router() in a child process on the fake clock; every event's FIN batch + directory listing and the final decoded tree are "
                 "compared with the Lean model; distinct = distinct (op line, answer) pairs, non-trivial = an event "
                 "that finished a message, changed a file or ended the process")
     # 1-2: regenerate, build, audit
